@@ -45,13 +45,13 @@ array::content *path::array_content() const
 	}
 	return reinterpret_cast<array::content *>(const_cast<char *>(base)) - 1;
 }
-path::path(const char *path, int s, int a) : base(0), off(0), len(0)
+path::path(const char *path, int s, int a) : base(0), off(0), len(0), first(0), flags(0)
 {
 	sep = s;
 	assign = a;
 	mpt_path_set(this, path, -1);
 }
-path::path(const path &from) : base(0)
+path::path(const path &from) : base(0), off(0), len(0), first(0), flags(0)
 {
 	*this = from;
 }
